@@ -241,3 +241,31 @@ def coupling_from_geometry(cx, units):
     cx.prove_eq("coupling_symmetric", agg.resonance_coupling[1, 0], ref, tol=1e-9)
     cx.prove_eq("H12", agg.HamOp._data[1, 2], ref, tol=1e-9)
     cx.prove_eq("H21", agg.HamOp._data[2, 1], ref, tol=1e-9)
+
+
+@harness("C03", "operators_survive_diagonalize",
+         quick=[dict(nmol=2, mult=1), dict(nmol=3, mult=2)], thorough=[dict(nmol=n, mult=m) for n in (2, 3) for m in (1, 2)],
+         functions=FUNCS + ["quantarhei/builders/aggregate_base.py:AggregateBase.diagonalize",
+                            "quantarhei/builders/aggregate_base.py:AggregateBase.get_TransitionDipoleMoment",
+                            "quantarhei/builders/aggregate_base.py:AggregateBase.get_Hamiltonian"],
+         bound="dimer / trimer (mult 1, 2) with concrete energies and couplings (the aggregate's internal "
+               "diagonalisation is the real LAPACK one) and symbolic dipoles: after Aggregate.diagonalize() the "
+               "operators handed out by get_Hamiltonian() and get_TransitionDipoleMoment() are still the site-basis "
+               "Frenkel ones (their storage is not shared with the arrays the aggregate rotates in place)",
+         out="")
+def operators_survive_diagonalize(cx, nmol, mult):
+    g = [0.0] * nmol
+    e = [1.0 + 0.13 * i for i in range(nmol)]
+    d = [cx.real_array("d%d" % i, 3) for i in range(nmol)]
+    J = numpy.zeros((nmol, nmol))
+    for i in range(nmol):
+        for j in range(i + 1, nmol):
+            J[i, j] = J[j, i] = 0.02 + 0.01 * (i + j)
+    agg = make_aggregate(cx, nmol, mult, g, e, d, J)
+    H0 = numpy.array(agg.get_Hamiltonian()._data).copy()
+    D0 = numpy.array(agg.get_TransitionDipoleMoment()._data).copy()
+    agg.diagonalize()
+    cx.prove_eq("hamiltonian_operator_unchanged", agg.get_Hamiltonian()._data, H0, tol=1e-9)
+    cx.prove_eq("dipole_operator_unchanged", agg.get_TransitionDipoleMoment()._data, D0, tol=1e-9)
+    cx.prove("operators_in_site_basis", agg.get_Hamiltonian().get_current_basis() == 0 and
+             agg.get_TransitionDipoleMoment().get_current_basis() == 0)
